@@ -485,6 +485,8 @@ pub fn single_component(name: &[u8; NAME_MAX], len: usize) -> bool {
 // close(2) model.  Must be referenced (fn pointer) from the harness so that
 // kani-compiler codegens it and it replaces CBMC's built-in model.
 
+// (not compiled for native concrete-playback tests: it would replace libc's close)
+#[cfg(not(test))]
 #[no_mangle]
 pub unsafe extern "C" fn close(fd: i32) -> i32 {
     K.do_close(fd);
@@ -497,11 +499,13 @@ pub unsafe extern "C" fn close(fd: i32) -> i32 {
 /// validity is tracked by K's own table instead.
 pub static mut MODEL_ERRNO: i32 = 0;
 
+#[cfg(not(test))]
 #[no_mangle]
 pub unsafe extern "C" fn __errno_location() -> *mut i32 {
     std::ptr::addr_of_mut!(MODEL_ERRNO)
 }
 
+#[cfg(not(test))]
 pub fn install_close_model() {
     let f: unsafe extern "C" fn(i32) -> i32 = close;
     let p = f as usize;
@@ -510,6 +514,8 @@ pub fn install_close_model() {
     let q = g as usize;
     kani::assume(q != 0);
 }
+#[cfg(test)]
+pub fn install_close_model() {}
 
 // ---------------------------------------------------------------------------
 // syscall stubs (signatures mirror crate::syscalls)
